@@ -395,11 +395,55 @@ print(json.dumps(out))
         rm_rf(tmp)
 
 
+def tables_probe(idx):
+    """several tables in ONE database file, named through the `?table=NAME` form (names of every first letter): each archive, and a fresh
+    handle on it in a new process, holds its own entries only, under the table it was asked for"""
+    names = [['beta', 'late', 'alpha', 'eta'], ['tab', 'memo2', 'x_y', 'tbl'], ['a', 'b', 'e', 'l']][idx % 3]
+    tmp = scratch_dir('kpt')
+    code = r'''
+import sys, os, json
+import klepto.archives as ka
+tmp, role = sys.argv[1], sys.argv[2]; names = sys.argv[3:]
+url = lambda n: 'sqlite:///%s?table=%s' % (os.path.join(tmp, 't.db'), n)
+out = {}
+if role == 'w':
+    hs = [ka.sqltable_archive(url(n), cached=False) for n in names] + [ka.sqltable_archive('sqlite:///%s' % os.path.join(tmp, 't.db'), cached=False)]
+    for i, h in enumerate(hs): h['own%d' % i] = i; h['shared'] = 'from%d' % i
+for i, n in enumerate(names + [None]):
+    h = ka.sqltable_archive(url(n) if n else 'sqlite:///%s' % os.path.join(tmp, 't.db'), cached=False)
+    out[str(i)] = sorted((k, repr(v)) for k, v in h.items())
+print(json.dumps(out))
+'''
+    try:
+        env = dict(os.environ, PYTHONPATH=REPO + os.pathsep + HERE, PYTHONDONTWRITEBYTECODE='1')
+        views = {}
+        for role in ('w', 'r'):
+            r = subprocess.run([sys.executable, '-c', code, tmp, role] + names, stdout=subprocess.PIPE, stderr=subprocess.PIPE, text=True, env=env, cwd=tmp, timeout=120)
+            if r.returncode != 0: return dict(viol=[], err='tables probe child failed: ' + r.stderr[-600:])
+            views[role] = json.loads(r.stdout.strip().splitlines()[-1])
+        viol = []
+        for role, v in views.items():
+            for i in range(len(names) + 1):
+                want = sorted([('own%d' % i, repr(i)), ('shared', repr('from%d' % i))])
+                got = [tuple(x) for x in v[str(i)]]
+                if got != want:
+                    viol.append(dict(prop='C04', i=0, sig=dict(backend='sql', codec='sql', view='F', what='tables-of-one-database-mixed-up', cause='none', bytecode=False),
+                                     msg='sqlite file with the tables %r and the default table: a fresh handle on table %r (%s process) reads %r, stored there %r' % (
+                                         names, (names + ['<default>'])[i], 'the writing' if role == 'w' else 'a new', got, want), cfg=dict(tables=idx), ops=[]))
+                    return dict(viol=viol, err=None)
+        return dict(viol=viol, err=None)
+    except Exception:
+        import traceback
+        return dict(viol=[], err=traceback.format_exc()[-800:])
+    finally:
+        rm_rf(tmp)
+
+
 def explore(prop, tier):
     with ThreadPool(NPROC) as p:
         trs = p.map(work, [(tier, i) for i in range(NTRACES[tier])])
         fts = p.map(fwork, [(tier, i) for i in range(NFUNC[tier])])
-        pps = p.map(partial_probe, list(range(12)))
+        pps = p.map(partial_probe, list(range(12))) + p.map(tables_probe, list(range(3)))
     errors = [t['err'] for t in trs if t['err']] + [t['err'] for t in fts if t['err']]
     trs = [t for t in trs if not t['err']]; fts = [t for t in fts if not t['err']]
     divs, viols, tags, nontriv = _analyse(prop, trs)
@@ -422,8 +466,8 @@ def _ser(ops): return dict(pickled=__import__('dill').dumps(ops).hex(), readable
 
 
 def replay(prop, obj):
-    if isinstance(obj.get('cfg'), dict) and 'partial' in obj['cfg']:
-        o = partial_probe(obj['cfg']['partial'])
+    if isinstance(obj.get('cfg'), dict) and ('partial' in obj['cfg'] or 'tables' in obj['cfg']):
+        o = partial_probe(obj['cfg']['partial']) if 'partial' in obj['cfg'] else tables_probe(obj['cfg']['tables'])
         if o['err']: raise NoVerdict(o['err'])
         return dict(violations=[dict(prop='C04', sig=v['sig'], msg=v['msg'], i=0) for v in o['viol']], divergence=None)
     if 'fjob' in obj:
@@ -455,7 +499,7 @@ def shrink_and_save(prop, v):
         return write_replay(prop, 'violation', dict(suite='persist', property=prop, fjob={k: x for k, x in v['fjob'].items() if k != 'loc'},
                                                     signature=v['sig'], message=v['msg']))
     cfg = v['cfg']
-    if 'partial' in cfg:
+    if 'partial' in cfg or 'tables' in cfg:
         return write_replay(prop, 'violation', dict(suite='persist', property=prop, cfg=cfg, signature=v['sig'], message=v['msg'],
                                                      how_to_replay='cd /verif && ./check C04 --replay <this file>'))
     def fails(ops):
